@@ -54,97 +54,176 @@ def build_layer(conn: dict, dt: float, B: int, dmax_steps):
     return Serial(c, n)
 
 
-def make_trainer(rule: str, hp: dict, reduction: str):
+def _val(hp: dict, key: str):
+    """A hyperparameter in the form requested by hp["form"][key]: python float (default),
+    "t0" a 0-d tensor, "tsyn" a per-synapse tensor broadcastable against t_delta (dense:
+    [N, M, 1]; only meaningful for kernel keyword arguments)."""
+    v = hp[key]
+    form = (hp.get("form") or {}).get(key, "float")
+    if form == "t0":
+        return torch.tensor(float(v), dtype=torch.float32)
+    if form == "tsyn":
+        return torch.tensor(v, dtype=torch.float32).unsqueeze(-1)
+    return float(v)
+
+
+def trainer_spec(rule: str, hp: dict, reduction: str):
+    """-> (trainer class, keyword arguments).  The same keywords are accepted by the
+    constructor (trainer-wide defaults) and by register_cell (per-cell overrides)."""
     red = REDUCTIONS[reduction]
-    if rule in ("stdp", "stable_stdp"):
-        cls = learn.STDP if rule == "stdp" else _two.StableSTDP
-        return cls(lr_post=hp["lr_post"], lr_pre=hp["lr_pre"], tc_post=hp["tc_post"], tc_pre=hp["tc_pre"],
-                   delayed=hp.get("delayed", False), trace_mode=hp["mode"], batch_reduction=red)
+    v = lambda k: _val(hp, k)   # noqa: E731
+    if rule in ("stdp", "stable_stdp", "mstdp"):
+        cls = {"stdp": learn.STDP, "stable_stdp": _two.StableSTDP, "mstdp": learn.MSTDP}[rule]
+        return cls, dict(lr_post=v("lr_post"), lr_pre=v("lr_pre"), tc_post=v("tc_post"), tc_pre=v("tc_pre"),
+                         delayed=hp.get("delayed", False), trace_mode=hp["mode"], batch_reduction=red)
     if rule in ("triplet", "stable_triplet"):
         cls = learn.TripletSTDP if rule == "triplet" else _two.StableTripletSTDP
-        return cls(lr_post_pair=hp["lr_post_pair"], lr_post_triplet=hp["lr_post_triplet"],
-                   lr_pre_pair=hp["lr_pre_pair"], lr_pre_triplet=hp["lr_pre_triplet"],
-                   tc_post_fast=hp["tc_post_fast"], tc_post_slow=hp["tc_post_slow"],
-                   tc_pre_fast=hp["tc_pre_fast"], tc_pre_slow=hp["tc_pre_slow"],
-                   delayed=hp.get("delayed", False), trace_mode=hp["mode"], batch_reduction=red)
-    if rule == "mstdp":
-        return learn.MSTDP(lr_post=hp["lr_post"], lr_pre=hp["lr_pre"], tc_post=hp["tc_post"], tc_pre=hp["tc_pre"],
-                           delayed=hp.get("delayed", False), trace_mode=hp["mode"], batch_reduction=red)
+        return cls, dict(lr_post_pair=v("lr_post_pair"), lr_post_triplet=v("lr_post_triplet"),
+                         lr_pre_pair=v("lr_pre_pair"), lr_pre_triplet=v("lr_pre_triplet"),
+                         tc_post_fast=v("tc_post_fast"), tc_post_slow=v("tc_post_slow"),
+                         tc_pre_fast=v("tc_pre_fast"), tc_pre_slow=v("tc_pre_slow"),
+                         delayed=hp.get("delayed", False), trace_mode=hp["mode"], batch_reduction=red)
     if rule == "mstdpet":
-        return learn.MSTDPET(lr_post=hp["lr_post"], lr_pre=hp["lr_pre"], tc_post=hp["tc_post"],
-                             tc_pre=hp["tc_pre"], tc_eligibility=hp["tc_eligibility"], trace_mode=hp["mode"],
-                             batch_reduction=red)
-    da = dict(lr_pos=hp.get("lr_pos"), lr_neg=hp.get("lr_neg"), tc_pos=hp.get("tc_pos"), tc_neg=hp.get("tc_neg"),
-              batch_reduction=red)
-    if rule == "da_stdp":
-        return learn.DelayAdjustedSTDP(**da)
-    if rule == "da_stdpd":
-        return learn.DelayAdjustedSTDPD(**da)
-    if rule == "da_mstdp":
-        return learn.DelayAdjustedMSTDP(**da)
-    if rule == "da_mstdpd":
-        return learn.DelayAdjustedMSTDPD(**da)
+        return learn.MSTDPET, dict(lr_post=v("lr_post"), lr_pre=v("lr_pre"), tc_post=v("tc_post"),
+                                   tc_pre=v("tc_pre"), tc_eligibility=v("tc_eligibility"), trace_mode=hp["mode"],
+                                   batch_reduction=red)
+    if rule in ("da_stdp", "da_stdpd", "da_mstdp", "da_mstdpd"):
+        cls = {"da_stdp": learn.DelayAdjustedSTDP, "da_stdpd": learn.DelayAdjustedSTDPD,
+               "da_mstdp": learn.DelayAdjustedMSTDP, "da_mstdpd": learn.DelayAdjustedMSTDPD}[rule]
+        return cls, dict(lr_pos=v("lr_pos"), lr_neg=v("lr_neg"), tc_pos=v("tc_pos"), tc_neg=v("tc_neg"),
+                         batch_reduction=red)
     if rule in ("k_stdp", "dak_stdp", "dak_stdpd"):
         # the shipped exponential half kernels; for the delay-learning variant the causal
         # branch carries eta_minus / tau_minus (class documentation of DelayAdjustedSTDPD)
         if rule == "dak_stdpd":
-            post_kw = {"learning_rate": hp["lr_neg"], "time_constant": hp["tc_neg"]}
-            pre_kw = {"learning_rate": hp["lr_pos"], "time_constant": hp["tc_pos"]}
+            post_kw = {"learning_rate": v("lr_neg"), "time_constant": v("tc_neg")}
+            pre_kw = {"learning_rate": v("lr_pos"), "time_constant": v("tc_pos")}
         else:
-            post_kw = {"learning_rate": hp["lr_pos"], "time_constant": hp["tc_pos"]}
-            pre_kw = {"learning_rate": hp["lr_neg"], "time_constant": hp["tc_neg"]}
+            post_kw = {"learning_rate": v("lr_pos"), "time_constant": v("tc_pos")}
+            pre_kw = {"learning_rate": v("lr_neg"), "time_constant": v("tc_neg")}
         kw = dict(kernel_post=exp_stdp_post_kernel, kernel_pre=exp_stdp_pre_kernel,
                   kernel_post_kwargs=post_kw, kernel_pre_kwargs=pre_kw, batch_reduction=red)
         if rule == "k_stdp":
-            return learn.KernelSTDP(delayed=hp.get("delayed", False), **kw)
-        if rule == "dak_stdp":
-            return learn.DelayAdjustedKernelSTDP(**kw)
-        return learn.DelayAdjustedKernelSTDPD(**kw)
+            return learn.KernelSTDP, dict(kw, delayed=hp.get("delayed", False))
+        return (learn.DelayAdjustedKernelSTDP if rule == "dak_stdp" else learn.DelayAdjustedKernelSTDPD), kw
     raise ValueError(rule)
 
 
-class Run:
-    """One real cell + one real trainer.  hdr: rule, hp, conn, dt, B, reduction,
-    dmax (steps or None), delay (None | number of steps | nested list in steps, shaped like
-    connection.delay)."""
+def decoy(kwargs: dict) -> dict:
+    """Trainer-wide defaults that differ from `kwargs` in every hyperparameter (used when the
+    real values are given as per-cell overrides: none of these may leak into the cell)."""
+    out = {}
+    for k, val in kwargs.items():
+        if k == "batch_reduction":
+            out[k] = torch.amax
+        elif k == "trace_mode":
+            out[k] = "nearest" if val == "cumulative" else "cumulative"
+        elif k == "delayed":
+            out[k] = not val
+        elif k in ("kernel_post", "kernel_pre"):
+            out[k] = val
+        elif k in ("kernel_post_kwargs", "kernel_pre_kwargs"):
+            out[k] = {"learning_rate": -0.37 if k.endswith("post_kwargs") else 0.91,
+                      "time_constant": torch.tensor(3.3) if k.endswith("post_kwargs") else 11.0}
+        elif k.startswith("tc_"):
+            out[k] = float(val) * 1.9 + 1.0          # stays positive, keeps slow > fast
+        else:
+            out[k] = -(float(val) * 1.7) + (0.3 if float(val) < 0 else -0.3)   # learning rates: other sign
+    return out
 
-    def __init__(self, hdr: dict):
-        self.hdr = hdr
-        self.rule = hdr["rule"]
-        self.dt = float(hdr["dt"])
-        self.B = int(hdr.get("B", 1))
-        self.layer = build_layer(hdr["conn"], self.dt, self.B, hdr.get("dmax"))
-        self.conn = self.layer.connection
-        self.conn.weight = torch.zeros_like(self.conn.weight)
-        if hdr.get("dmax") is not None and hdr.get("delay") is not None:
-            self.set_delay(hdr["delay"])
+
+def make_trainer(rule: str, hp: dict, reduction: str):
+    cls, kw = trainer_spec(rule, hp, reduction)
+    return cls(**kw)
+
+
+class MultiRun:
+    """Several real cells trained by ONE real trainer.  hdrs: list of cell headers (rule, hp, conn,
+    dt, B, reduction, dmax, delay); all share hdrs[0]["rule"].  via = "ctor": the trainer is built
+    from hdrs[0]'s hyperparameters and cell 0 registered without overrides (further cells with
+    overrides); via = "override": the trainer is built from decoy defaults and EVERY cell is
+    registered with its own hyperparameters as register_cell keyword overrides."""
+
+    def __init__(self, hdrs: list, via: str = "ctor"):
+        self.hdrs = hdrs
+        self.rule = hdrs[0]["rule"]
         self.param = "delay" if self.rule in DELAY_LEARNING else "weight"
-        self.trainer = make_trainer(self.rule, hdr["hp"], hdr.get("reduction", "sum"))
-        self.trainer.register_cell("cell", self.layer.cell)
+        self.names = [f"cell{j}" for j in range(len(hdrs))]
+        self.layers, self.dts = [], []
+        specs = [trainer_spec(self.rule, h["hp"], h.get("reduction", "sum")) for h in hdrs]
+        cls, kw0 = specs[0]
+        self.trainer = cls(**(decoy(kw0) if via == "override" else kw0))
+        for j, h in enumerate(hdrs):
+            dt = float(h["dt"])
+            layer = build_layer(h["conn"], dt, int(h.get("B", 1)), h.get("dmax"))
+            layer.connection.weight = torch.zeros_like(layer.connection.weight)
+            self.layers.append(layer)
+            self.dts.append(dt)
+            if h.get("dmax") is not None and h.get("delay") is not None:
+                self.set_delay(h["delay"], j)
+            if via == "ctor" and j == 0:
+                self.trainer.register_cell(self.names[j], layer.cell)
+            else:
+                self.trainer.register_cell(self.names[j], layer.cell, **specs[j][1])
 
-    def set_delay(self, steps):
-        """Assign the learned delays, given in (possibly fractional) steps."""
-        d = torch.as_tensor(steps, dtype=torch.float64) * self.dt
-        self.conn.delay = (torch.zeros_like(self.conn.delay) + d.to(self.conn.delay.dtype)).clone()
+    def set_delay(self, steps, j: int = 0):
+        """Assign the learned delays of cell j, given in (possibly fractional) steps."""
+        conn = self.layers[j].connection
+        d = torch.as_tensor(steps, dtype=torch.float64) * self.dts[j]
+        conn.delay = (torch.zeros_like(conn.delay) + d.to(conn.delay.dtype)).clone()
 
-    def step(self, x, y, signal=None, scale=1.0, apply=True):
-        """x: bool [B, *inshape], y: bool [B, *outshape] -> (pos, neg) as float64 tensors shaped
-        like the trained parameter (an absent part is zero)."""
-        self.layer(x, neuron_kwargs={"override": y})
+    def forward_layers(self, inputs):
+        for layer, (x, y) in zip(self.layers, inputs):
+            layer(x, neuron_kwargs={"override": y})
+
+    def train(self, signal=None, scale=1.0, cells=None):
         if self.rule in THREE_FACTOR:
-            self.trainer(signal, scale)
+            if cells is None:
+                self.trainer(signal, scale)
+            else:
+                self.trainer(signal, scale, cells=cells)
         else:
             self.trainer()
-        acc = getattr(self.conn.updater, self.param)
-        ref = getattr(self.conn, self.param)
+
+    def read(self, j: int = 0, apply=True):
+        """-> (pos, neg) of cell j as float64 tensors (an absent part is zero); then apply + clear
+        (connection.update()) or only clear."""
+        conn = self.layers[j].connection
+        acc = getattr(conn.updater, self.param)
+        ref = getattr(conn, self.param)
         pos, neg = acc.pos, acc.neg
         pos = torch.zeros_like(ref, dtype=torch.float64) if pos is None else pos.detach().to(torch.float64).clone()
         neg = torch.zeros_like(ref, dtype=torch.float64) if neg is None else neg.detach().to(torch.float64).clone()
         if apply:
-            self.conn.update()
+            conn.update()
         else:
-            delattr(self.conn.updater, self.param)
+            delattr(conn.updater, self.param)
         return pos.reshape(ref.shape), neg.reshape(ref.shape)
 
-    def value(self):
-        return getattr(self.conn, self.param).detach().to(torch.float64).clone()
+    def step(self, inputs, signal=None, scale=1.0, cells=None, apply=True):
+        """inputs: one (x, y) per cell -> list of (pos, neg) per cell."""
+        self.forward_layers(inputs)
+        self.train(signal, scale, cells)
+        return [self.read(j, apply) for j in range(len(self.layers))]
+
+    def value(self, j: int = 0):
+        return getattr(self.layers[j].connection, self.param).detach().to(torch.float64).clone()
+
+
+class Run(MultiRun):
+    """One real cell + one real trainer.  hdr: rule, hp, conn, dt, B, reduction, dmax (steps or
+    None), delay (None | number of steps | nested list in steps, shaped like connection.delay),
+    via ("ctor" | "override")."""
+
+    def __init__(self, hdr: dict):
+        MultiRun.__init__(self, [hdr], via=hdr.get("via", "ctor"))
+        self.hdr = hdr
+        self.dt = self.dts[0]
+        self.B = int(hdr.get("B", 1))
+        self.layer = self.layers[0]
+        self.conn = self.layer.connection
+
+    def step(self, x, y, signal=None, scale=1.0, apply=True):
+        """x: bool [B, *inshape], y: bool [B, *outshape] -> (pos, neg) as float64 tensors shaped
+        like the trained parameter (an absent part is zero)."""
+        return MultiRun.step(self, [(x, y)], signal, scale, None, apply)[0]
